@@ -18,7 +18,7 @@
    Quantifiers: every configuration (any index function, any batch semantics), every initial bucket,
    every batch stream, any number of readers with arbitrary search programs, every schedule. *)
 From Coq Require Import List NArith ZArith Arith Bool.
-From Semadb Require Import Bytes Value Obs Model_C01 Model_C09 Proofs_C09 Proofs_C09b.
+From Semadb Require Import Bytes Value Obs Model_C01 Model_C09 Proofs_C09 Proofs_C09b ItemCacheLocks.
 From Semadb Require Run_C09.
 Import ListNotations.
 Open Scope nat_scope.
@@ -344,3 +344,16 @@ Example ex_inside_window_rollback :
   nth_error (st_rs st') 0 = Some (RDone (0, w_p0) (Ok [(1%N, (w_id1, w_doc))])) /\
   st_heap st' = st_heap st /\ st_wph st' = st_wph st /\ st_mgr st' = Some 0.
 Proof. vm_compute. repeat (split; [reflexivity|]). reflexivity. Qed.
+
+(* ---------------------------------------------------------------------------
+   Lock discipline of the item caches. The models treat every operation of an ItemCache as atomic with respect to
+   the other operations on the same cache, and the cache manager sizes every registered cache (SizeInMemory) while
+   their users run. gen/gen_itemcache_locks.py reads shard/cache/itemcache.go on every run and refuses any shape
+   other than: an exported method that works on the item map holds the cache mutex for its whole body; an
+   unexported helper that does is only called from such methods. *)
+Theorem c09_itemcache_methods_locked :
+  forallb (fun m => let '(_, touches, locks, exported) := m in implb (touches && exported) locks)
+          ItemCacheLocks.itemcache_methods = true
+  /\ (8 <= length ItemCacheLocks.itemcache_methods)%nat.
+Proof. vm_compute. split; [reflexivity|repeat constructor]. Qed.
+Print Assumptions c09_itemcache_methods_locked.
